@@ -29,16 +29,26 @@ ExpProvider(c, i) ==
        [ok |-> TRUE, flavor |-> m.flavor, tags |-> [k \in 1 .. Len(m.dir) |-> m.dir[k].tag]]
   ELSE [ok |-> FALSE, flavor |-> <<>>, tags |-> <<>>]
 
+\* A query can only follow a Provider(i) that succeeded.  When the container has no such member (the
+\* implementation handed out a font for an index beyond the end of the collection) no answer conforms:
+\* the expectation carries a field that no observation has, so the comparison is FALSE, never an error.
 ExpQuery(c, i, tag) ==
+  IF ~HasMember(c, i)
+  THEN [ok |-> FALSE, some |-> FALSE, digest |-> <<>>, has |-> FALSE, member |-> "beyond the end"]
+  ELSE
   LET m  == MemberOf(c, i)
       ks == {k \in 1 .. Len(m.dir) : m.dir[k].tag = tag} IN
   IF ks = {} THEN [ok |-> TRUE, some |-> FALSE, digest |-> <<>>, has |-> FALSE]
   ELSE [ok |-> TRUE, some |-> TRUE, digest |-> c.digests[m.dir[Min(ks)].tid], has |-> TRUE]
 
+\* Total over every event the harness can write: the shape of an event (fields and their types) is fixed by
+\* the harness, the values are whatever the implementation returned.  Records with different field sets
+\* (e.g. an observation carrying "panic") compare FALSE.
 Expected(e) ==
   CASE e.ev = "Load"     -> ExpLoad(cont)
     [] e.ev = "Provider" -> ExpProvider(cont, e.a.member)
     [] e.ev = "Query"    -> ExpQuery(cont, e.a.member, e.a.tag)
+    [] OTHER             -> [ok |-> FALSE, unmodelled |-> e.ev]
 
 TInit == l = 1 /\ cont = NoCont
 
